@@ -7,13 +7,14 @@ from pyvc.native import *      # noqa: F401,F403  (contract-language builtins, n
 
 CONTEXT_FILE = 'frappy/datatypes.py'
 SOURCES = ['frappy/datatypes.py', 'frappy/properties.py', 'frappy/lib/enum.py']
-DISPATCHED = ['InSet', 'Den', 'Conv', 'DenWire', 'DenConv', 'JsonKind', 'Exported', 'ConvW']
+DISPATCHED = ['InSet', 'Den', 'Conv', 'DenWire', 'DenConv', 'JsonKind', 'Exported', 'ConvW', 'Accepts']
 DISPATCH_FALLBACK = {'DenWire': 'DenConv', 'Conv': 'InSet', 'DenConv': 'Den', 'ConvW': 'Conv'}
 INLINE = []
 
 ASSUMPTIONS = [
     'A1 float arithmetic is real arithmetic (no rounding); overflow to +-inf, NaN propagation and unordered NaN are modelled;'
     ' the int->float conversion of `int + float` / `int - float` / float(int) rounds beyond 2**53 (some whole number within relative error 2**-53)',
+    'FloatRange.validate is verified for relative_resolution <= 1 (stated domain)',
     'A2 generalConfig.lazy_number_validation is False (its default)',
     'A3 logging never raises',
     'A4 dictionaries have string keys',
@@ -153,7 +154,12 @@ def DenConv_ScaledInteger(self, result, offered):
 
 def DenWire_ScaledInteger(self, result, wire):
     # the wire value must be a whole number (integer kind); the result is wire * scale
-    return is_whole(wire) and result == realnum(wire) * self.scale
+    # (infinite when the product leaves the float range; validate rejects that afterwards)
+    if not is_whole(wire):
+        return False
+    if is_inf(result):
+        return abs(realnum(wire)) * self.scale > FMAX
+    return result == realnum(wire) * self.scale
 
 
 def InSet_EnumType(self, v):
@@ -377,6 +383,27 @@ def Exported_StructOf(self, v, w):
             and all(Exported(self.members[k], v[k], w[k]) for k in v))
 
 
+# ---- C03: Accepts(dt, g) - validate(g) returns (for numbers g); the exact acceptance region of each number kind
+def Accepts_FloatRange(self, g):
+    return is_number(g) and -FMAX <= g <= FMAX and self.min - prec_FloatRange(self, as_float(g)) <= as_float(g) <= self.max + prec_FloatRange(self, as_float(g))
+
+
+def Accepts_ScaledInteger(self, g):
+    return is_number(g) and self.min - self.scale <= g <= self.max + self.scale
+
+
+def Accepts_IntRange(self, g):
+    return is_number(g) and is_whole(g) and -FMAX <= g <= FMAX and self.min <= g <= self.max
+
+
+def Accepts_EnumType(self, g):
+    return EnumFound(self._enum, g)
+
+
+def Accepts_BoolType(self, g):
+    return is_number(g) and (num_eq(g, 0) or num_eq(g, 1))
+
+
 def ClampPost(_min, value, _max, result):
     """result is the median of the three (extended order); nothing is promised for NaN"""
     if is_nan(value):
@@ -411,7 +438,9 @@ CONTRACTS = [
          ensures={'conv': 'Conv(self, result)', 'same': 'Den(self, result, value)'},
          raises={'badvalue': 'issubclass(exc, BadValueError)'},
          lemmas={'complete': dict(requires=['is_int(value) and -FMAX <= value <= FMAX'], ensures={'id': 'result == value and is_int(result)'},
-                                  raises='never')},
+                                  raises='never'),
+                 'whole': dict(requires=['is_number(value) and is_whole(value) and -FMAX <= value <= FMAX'],
+                               ensures={'same': 'is_int(result) and num_eq(result, value)'}, raises='never')},
          witness="IntRange(F['min'], F['max'])"),
     dict(key='IntRange.validate', file='frappy/datatypes.py', func='IntRange.validate', serves=['C01'],
          self_type='IntRange',
@@ -419,7 +448,8 @@ CONTRACTS = [
          ensures={'sound': 'InSet(self, result)', 'same': 'Den(self, result, value)'},
          raises={'badvalue': 'issubclass(exc, BadValueError)'},
          lemmas={'idem': dict(requires=['InSet(self, value)', 'previous is None or same_object(previous, value)'],
-                              ensures={'unchanged': 'result == value and is_int(result)'}, raises='never')},
+                              ensures={'unchanged': 'result == value and is_int(result)'}, raises='never'),
+                 'accepts': dict(requires=['Accepts(self, value)'], ensures={}, raises='never')},
          witness="IntRange(F['min'], F['max'])"),
     # ----------------------------------------------------------- FloatRange
     dict(key='FloatRange.__call__', file='frappy/datatypes.py', func='FloatRange.__call__', serves=['C01', 'C02'],
@@ -428,16 +458,22 @@ CONTRACTS = [
          ensures={'conv': 'Conv(self, result)', 'same': 'DenConv(self, result, value)'},
          raises={'badvalue': 'issubclass(exc, BadValueError)'},
          lemmas={'complete': dict(requires=['is_finite_float(value)'],
-                                  ensures={'id': 'result == value and is_finite_float(result)'}, raises='never')},
+                                  ensures={'id': 'result == value and is_finite_float(result)'}, raises='never'),
+                 'number': dict(requires=['is_number(value) and -FMAX <= value <= FMAX'],
+                                ensures={'same': 'result == as_float(value)'}, raises='never')},
          witness="FloatRange(F['min'], F['max'], absolute_resolution=F['absolute_resolution'], "
                  "relative_resolution=F['relative_resolution'])"),
     dict(key='FloatRange.validate', file='frappy/datatypes.py', func='FloatRange.validate', serves=['C01'],
          self_type='FloatRange',
          requires=['inv(self)', 'previous is None or InSet(self, previous)'],
+         # stated domain: a relative resolution above 1 (tolerance larger than the value itself) is outside it;
+         # it is the only way `value * relative_resolution` can leave the float range
+         assumes=['self.relative_resolution <= 1'],
          ensures={'sound': 'InSet(self, result)', 'same': 'Den(self, result, value)'},
          raises={'badvalue': 'issubclass(exc, BadValueError)'},
          lemmas={'idem': dict(requires=['InSet(self, value)', 'previous is None or same_object(previous, value)'],
-                              ensures={'unchanged': 'result == value and is_finite_float(result)'}, raises='never')},
+                              ensures={'unchanged': 'result == value and is_finite_float(result)'}, raises='never'),
+                 'accepts': dict(requires=['Accepts(self, value)'], ensures={}, raises='never')},
          witness="FloatRange(F['min'], F['max'], absolute_resolution=F['absolute_resolution'], "
                  "relative_resolution=F['relative_resolution'])"),
     dict(key='IntRange.import_value', file='frappy/datatypes.py', func='DataType.import_value', serves=['C01', 'C02'],
@@ -457,7 +493,7 @@ CONTRACTS = [
          self_type='ScaledInteger', requires=['inv(self)'],
          ensures={'conv': 'Conv(self, result)', 'same': 'DenConv(self, result, value)'},
          raises={'badvalue': 'issubclass(exc, BadValueError)'},
-         lemmas={'complete': dict(requires=['Conv(self, value) and abs(value) + self.scale <= FMAX'], ensures={'id': 'result == value'}, raises='never')},
+         lemmas={'complete': dict(requires=['Conv(self, value) and is_finite_float(value) and abs(value) + self.scale <= FMAX and abs(value) <= FMAX * self.scale'], ensures={'id': 'result == value'}, raises='never')},
          witness="ScaledInteger(F['scale'], F['min'], F['max'])"),
     dict(key='ScaledInteger.validate', file='frappy/datatypes.py', func='ScaledInteger.validate', serves=['C01'],
          assume_no_float_overflow=True,
@@ -541,7 +577,8 @@ CONTRACTS = [
          self_type='BoolType', requires=['inv(self)'],
          ensures={'conv': 'Conv(self, result)', 'same': 'DenConv(self, result, value)'},
          raises={'badvalue': 'issubclass(exc, BadValueError)'},
-         lemmas={'complete': dict(requires=['InSet(self, value)'], ensures={'id': 'result == value'}, raises='never')},
+         lemmas={'complete': dict(requires=['InSet(self, value)'], ensures={'id': 'result == value'}, raises='never'),
+                 'accepts': dict(requires=['Accepts(self, value)'], ensures={}, raises='never')},
          witness='BoolType()'),
     dict(key='BoolType.validate', file='frappy/datatypes.py', func='DataType.validate', serves=['C01'],
          self_type='BoolType', requires=['inv(self)', 'previous is None or InSet(self, previous)'],
@@ -674,9 +711,84 @@ CONTRACTS = [
     dict(key='iface::DataType.export_value', file=None, func=None, signature='self, value', serves=[], trusted=True,
          requires=['inv(self)', 'InSet(self, value)'],
          ensures={'kind': 'JsonKind(self, result)', 'form': 'Exported(self, value, result)'}, raises='never'),
+    # ------------------------------------------------------------- C03: compatible()
+    # returns only if every valid value g of self is accepted by other (ghost g ranges over all values);
+    # one contract per supported target class (the receiver of the inner validate calls must be concrete)
+    dict(key='FloatRange.compatible[FloatRange]', file='frappy/datatypes.py', func='FloatRange.compatible', serves=['C03'],
+         self_type='FloatRange', params={'other': 'FloatRange'}, requires=['inv(self)', 'inv(other)'],
+         assumes=['other.relative_resolution < 1'],   # a relative tolerance >= 1 makes the accepted region non-convex around 0
+         ghost_params={'g': 'any'},
+         ensures={'subset': 'implies(InSet(self, g), Accepts(other, g))', 'none': 'result is None'},
+         raises={'badvalue': 'issubclass(exc, BadValueError)'},
+         lemmas={'complete': dict(requires=['other.min <= self.min and self.max <= other.max'], ensures={}, raises='never')},
+         witness=None),
+    dict(key='FloatRange.compatible[ScaledInteger]', vc=False, file='frappy/datatypes.py', func='FloatRange.compatible', serves=['C03'],
+         self_type='FloatRange', params={'other': 'ScaledInteger'}, requires=['inv(self)', 'inv(other)'],
+         ghost_params={'g': 'any'}, callee_vc_false_ok=True,
+         ensures={'subset': 'implies(InSet(self, g), Accepts(other, g))', 'none': 'result is None'},
+         raises={'badvalue': 'issubclass(exc, BadValueError)'},
+         lemmas={'complete': dict(requires=['other.min <= self.min and self.max <= other.max'], ensures={}, raises='never')},
+         witness=None),
+    dict(key='IntRange.compatible[IntRange]', file='frappy/datatypes.py', func='IntRange.compatible', serves=['C03'],
+         self_type='IntRange', params={'other': 'IntRange'}, requires=['inv(self)', 'inv(other)'],
+         ghost_params={'g': 'any'},
+         ensures={'subset': 'implies(InSet(self, g), Accepts(other, g))', 'none': 'result is None'},
+         raises={'badvalue': 'issubclass(exc, BadValueError)'},
+         lemmas={'complete': dict(requires=['other.min <= self.min and self.max <= other.max'], ensures={}, raises='never')},
+         witness=None),
+    dict(key='IntRange.compatible[FloatRange]', file='frappy/datatypes.py', func='IntRange.compatible', serves=['C03'],
+         self_type='IntRange', params={'other': 'FloatRange'}, requires=['inv(self)', 'inv(other)'],
+         assumes=['other.relative_resolution < 1',
+                  # beyond 2**53 the limits of the float type are not arbitrary reals (A1): stated domain
+                  '-9007199254740992 <= self.min and self.max <= 9007199254740992'],   # a relative tolerance >= 1 makes the accepted region non-convex around 0
+         ghost_params={'g': 'any'},
+         ensures={'subset': 'implies(InSet(self, g), Accepts(other, g))', 'none': 'result is None'},
+         raises={'badvalue': 'issubclass(exc, BadValueError)'},
+         lemmas={'complete': dict(requires=['other.min <= self.min and self.max <= other.max'], ensures={}, raises='never')},
+         witness=None),
+    dict(key='IntRange.compatible[ScaledInteger]', vc=False, file='frappy/datatypes.py', func='IntRange.compatible', serves=['C03'],
+         self_type='IntRange', params={'other': 'ScaledInteger'}, requires=['inv(self)', 'inv(other)'],
+         ghost_params={'g': 'any'},
+         ensures={'subset': 'implies(InSet(self, g), Accepts(other, g))', 'none': 'result is None'},
+         raises={'badvalue': 'issubclass(exc, BadValueError)'},
+         lemmas={'complete': dict(requires=['other.min <= self.min and self.max <= other.max'], ensures={}, raises='never')},
+         witness=None),
+    dict(key='IntRange.compatible[BoolType]', file='frappy/datatypes.py', func='IntRange.compatible', serves=['C03'],
+         self_type='IntRange', params={'other': 'BoolType'}, requires=['inv(self)', 'inv(other)'],
+         ghost_params={'g': 'any'},
+         ensures={'subset': 'implies(InSet(self, g), Accepts(other, g))', 'none': 'result is None'},
+         raises={'badvalue': 'issubclass(exc, BadValueError)'},
+         lemmas={'complete': dict(requires=['0 <= self.min and self.max <= 1'], ensures={}, raises='never')},
+         witness=None),
+    dict(key='IntRange.compatible[EnumType]', file='frappy/datatypes.py', func='IntRange.compatible', serves=['C03'],
+         self_type='IntRange', params={'other': 'EnumType'}, requires=['inv(self)', 'inv(other)'],
+         ghost_params={'g': 'any'},
+         ensures={'subset': 'implies(InSet(self, g), Accepts(other, g))', 'none': 'result is None'},
+         raises={'badvalue': 'issubclass(exc, BadValueError)'},
+         lemmas={'complete': dict(requires=['forall_int(lambda j: implies(self.min <= j and j <= self.max, enum_has_code(other._enum, j)))'], ensures={}, raises='never')},
+         witness=None),
+    dict(key='ScaledInteger.compatible[FloatRange]', vc=False, file='frappy/datatypes.py', func='ScaledInteger.compatible', serves=['C03'],
+         self_type='ScaledInteger', params={'other': 'FloatRange'}, requires=['inv(self)', 'inv(other)'],
+         assumes=['other.relative_resolution < 1'],   # a relative tolerance >= 1 makes the accepted region non-convex around 0
+         ghost_params={'g': 'any'},
+         ensures={'subset': 'implies(InSet(self, g), Accepts(other, g))', 'none': 'result is None'},
+         raises={'badvalue': 'issubclass(exc, BadValueError)'},
+         lemmas={'complete': dict(requires=['other.min <= self.min and self.max <= other.max'], ensures={}, raises='never')},
+         witness=None),
+    dict(key='ScaledInteger.compatible[ScaledInteger]', vc=False, file='frappy/datatypes.py', func='ScaledInteger.compatible', serves=['C03'],
+         self_type='ScaledInteger', params={'other': 'ScaledInteger'}, requires=['inv(self)', 'inv(other)'],
+         ghost_params={'g': 'any'},
+         ensures={'subset': 'implies(InSet(self, g), Accepts(other, g))', 'none': 'result is None'},
+         raises={'badvalue': 'issubclass(exc, BadValueError)'},
+         lemmas={'complete': dict(requires=['other.min <= self.min and self.max <= other.max'], ensures={}, raises='never')},
+         witness=None),
 ]
 
-LOOPS = {}
+LOOPS = {
+    # IntRange.compatible: for i in range(self.min, self.max + 1): other(i)
+    'IntRange.compatible#0': dict(header='range(self.min, self.max + 1)',
+                                  invariant={'accepted': 'forall_int(lambda j: implies(self.min <= j and j < self.min + i__, Accepts(other, j)))'}),
+}
 
 # concrete member types tried when a counter-model over an abstract member datatype is replayed
 CATALOGUE = ['IntRange(-5, 5)', 'FloatRange(-5.0, 5.0)', 'StringType(0, 3)', 'BoolType()', 'BLOBType(0, 3)',
@@ -693,6 +805,7 @@ Conv = make_dispatcher('Conv')
 DenWire = make_dispatcher('DenWire')
 DenConv = make_dispatcher('DenConv')
 ConvW = make_dispatcher('ConvW')
+Accepts = make_dispatcher('Accepts')
 JsonKind = make_dispatcher('JsonKind')
 Exported = make_dispatcher('Exported')
 register(globals())
